@@ -467,6 +467,35 @@ func c01LaneA(c *Ctx, root *Rng, n int) []*c01Case {
 		co.Steps = c01Sweep(r, "c.lua", corpus[nm], 20, c01PosMethods)
 		cases = append(cases, co)
 	}
+	// A1: the file ends inside a token - every combination of a statement prefix, a token opener and a tail of escapes and
+	// line breaks; 24 tiny files per server
+	{
+		prefixes := []string{"", "local s = ", "f(", "t = { k = "}
+		openers := []string{"\"abc", "'abc", "[[abc", "[==[abc", "--[[abc", "--[==[abc", "--abc", "0x", "1e", "3..", "a.", "a:", "::", "goto", "\"\\x4", "\"\\u{4", "\"\\12", "\"\\z", "function", "#!"}
+		tails := []string{"", "\\", "\n", "\r", "\r\n", "\\\n", "\\\r", "\\\r\n", "\\\n\r", " "}
+		var all []string
+		for _, p := range prefixes {
+			for _, o := range openers {
+				for _, t := range tails {
+					all = append(all, p+o+t)
+				}
+			}
+		}
+		for b := 0; b*24 < len(all); b++ {
+			files := map[string]string{}
+			end := (b + 1) * 24
+			if end > len(all) {
+				end = len(all)
+			}
+			for k, txt := range all[b*24 : end] {
+				files[fmt.Sprintf("e%02d.lua", k)] = txt
+			}
+			r := root.Fork(uint64(9000 + b))
+			cs := &c01Case{Lane: "A-content", Label: fmt.Sprintf("end-of-file-inside-a-token:batch%d", b), Files: files}
+			cs.Steps = c01Sweep(r, "e00.lua", strings.ToValidUTF8(files["e00.lua"], "\uFFFD"), 8, c01PosMethods)
+			cases = append(cases, cs)
+		}
+	}
 	for i := 0; i < n; i++ {
 		r := root.Fork(uint64(i))
 		var base string
